@@ -466,7 +466,7 @@ pub fn run(tier: Tier) {
 }
 
 pub fn replay(case: &Value) -> Result<Option<String>, String> {
-    if case.get("kind").and_then(|k| k.as_str()) == Some("e5") {
+    if case.get("kind").and_then(|k| k.as_str()) .map(|k| k == "e5" || k == "e5-setup").unwrap_or(false) {
         return crate::e5::replay(case);
     }
     if case.get("kind").and_then(|k| k.as_str()) == Some("decoder-history") {
